@@ -2,7 +2,7 @@
 import json
 import time
 
-from common import Scratch, Verdict, build_harness, harness_json, log, marker_json, require_ok, run_tlc, write_evidence
+from common import Infra, Scratch, Verdict, seed, build_harness, harness_json, log, marker_json, require_ok, run_tlc, write_evidence
 
 RULES = {
     "C11": "every case of CqlValue.tla: integer CQL types x accepted Go representations x boundary values (0, +-1, +-2, +-2^e +- 1 for "
@@ -20,6 +20,53 @@ RULES = {
            "into a pre-filled destination reports wasNull, zeroes it, no error; null elements at every position of list/set/map/"
            "tuple/UDT survive; protocol v2 collections refuse them",
 }
+
+
+# which property a clause of CqlValueTrace!Verdict belongs to
+CLAUSE_PROPS = {"enc-silent": {"C13"}, "enc-refused": {"C11"}, "enc-bytes": {"C12", "C13"},
+                "dec-silent": {"C13"}, "dec-refused": {"C11"}, "dec-value": {"C11", "C12", "C13"}}
+
+
+def random_leg(s, h, v, prop, tier):
+    """Binding T: conversions of random integers by the real codecs, judged line by line by TLC (CqlValueTrace.tla)."""
+    n = 2500 if tier == "quick" else 20000
+    trace = s.file("cqlrand.ndjson")
+    rep = harness_json(h, ["cqlrand", "-n", str(n), "-seed", str(seed()), "-out", trace], timeout=3600)
+    for x in rep["violations"]:
+        p, sig = x["sig"].split("|", 1)
+        if p == prop:
+            v.violation(sig, x["detail"], x["replay"])
+    lines = [json.loads(l) for l in open(trace)]
+    # control: a line that is wrong must be rejected (the binding is not vacuous)
+    with open(trace, "a") as f:
+        f.write(json.dumps(dict(d="enc", cql="tinyint", rep="int64", neg=False, mag=[0, 0, 0, 1, 0, 0, 1, 1], ok=True, bytes=[200])) + "\n")
+    with open(s.file("CqlValueTraceRun.cfg"), "w") as f:
+        f.write("SPECIFICATION TSpec\nCHECK_DEADLOCK FALSE\n")
+    res = require_ok(run_tlc(s, "CqlValueTrace", cfg="CqlValueTraceRun.cfg", workers=1, marker='"REJECTED"', copy=False, env=dict(TRACE=trace, VERIF_DEEP="0"), timeout=3600),
+                     "CqlValueTrace")
+    out = marker_json(res.lines, '"REJECTED"')
+    if not out or out[0]["n"] != len(lines) + 1:
+        raise Infra("CqlValueTrace did not read the whole trace")
+    bad = {int(b[0]): b[1] for b in out[0]["bad"]}
+    if bad.pop(len(lines) + 1, None) != "enc-silent":
+        raise Infra("CqlValueTrace accepted the control line (tinyint 200 encoded without error)")
+    mine = 0
+    for i, clause in sorted(bad.items()):
+        e = lines[i - 1]
+        if prop in CLAUSE_PROPS.get(clause, ()):
+            mag = e.get("mag") or []
+            val = sum(b << k for k, b in enumerate(mag)) * (-1 if e.get("neg") else 1)
+            v.violation("cqlrand|%s|%s|%s" % (clause, e["cql"], e["rep"]),
+                        "random conversion rejected by CqlValueTrace (%s): %s %s %s, value %s, bytes %s, ok=%s" % (
+                            clause, e["d"], e["cql"], e["rep"], val if (e["d"] == "enc" or e["ok"]) else "-", bytes(e["bytes"]).hex(), e["ok"]),
+                        dict(check="cqlrand", line=e, clause=clause))
+            mine += 1
+    log("CqlValueTrace: %d random conversions of the real codecs judged by TLC, %d rejected (%d for %s); control line rejected" % (len(lines), len(bad), mine, prop))
+    return dict(conversions=len(lines), rejected=len(bad), distinct=rep["distinct"],
+                rule="random integers (random sign, bit length up to 70 / 130 for varint, random bits) encoded from a random accepted Go representation, "
+                     "and random byte strings of the type's width decoded into a random representation, by the real codecs; every conversion is one "
+                     "trace line judged by TLC with the operators of CqlValue.tla (range verdict, prescribed bytes, denoted value); a deliberately "
+                     "wrong control line must be rejected")
 
 
 def run_cql(prop, tier):
@@ -46,9 +93,14 @@ def run_cql(prop, tier):
         if others:
             log("NOTE this run also found violations of %s (reported by their own checks)" % ",".join(sorted(others)))
         log("%s: %d evaluations on the real codecs, %d violations attributed to %s" % (prop, rep["evaluations"], mine, prop))
+        rand = None
+        if prop in ("C11", "C12", "C13"):
+            rand = random_leg(s, h, v, prop, tier)
         unlisted = v.finish()
-        cov = dict(evaluations=rep["evaluations"], distinct_nontrivial=rep["distinct"], rule=RULES[prop], samples=rep["samples"],
-                   tlc_cases=len(cases), extra=rep.get("extra"), known_findings=sorted(v.known_hits))
+        cov = dict(evaluations=rep["evaluations"] + (rand["conversions"] if rand else 0), distinct_nontrivial=rep["distinct"] + (rand["distinct"] if rand else 0),
+                   rule=RULES[prop], samples=rep["samples"], tlc_cases=len(cases), extra=rep.get("extra"), random_leg=rand, known_findings=sorted(v.known_hits))
+        if rand:
+            cov["traces_validated_against_impl"] = rand["conversions"]
         write_evidence(prop, tier, "exploration", cov, time.time() - t0, unlisted,
                        assumptions=["CqlValue.tla transcribes native_protocol_v5.spec section 6 / v2 section 6 and datacodec/doc.go",
                                     "the harness only materialises values (math/big) and compares; verdicts and bytes come from TLC"])
